@@ -574,7 +574,7 @@ class Engine:
         g = sym._zb(cond) if not isinstance(cond, bool) else cond
         t0 = time.time()
         if g is True:
-            self.results.append(Result(name, T.case_id, "proved", "trivial", 0.0, detail=detail))
+            self.results.append(Result(name, T.case_id, "proved", "z3-simplify", 0.0, detail=detail))
             return
         goal = sym._z3b(g)
         status, backend, model = _solve(c.pc, goal)
@@ -585,7 +585,7 @@ class Engine:
                 res.model["__choices__"] = [d for d in c.decisions if not isinstance(d, bool)]
             except Exception as exc:  # noqa: BLE001
                 res.detail += " (model extraction failed: %r)" % (exc,)
-        if len(self.samples) < 3 and status == "proved" and backend != "trivial":
+        if len(self.samples) < 3 and status == "proved":
             s = z3.Solver()
             for p in c.pc:
                 s.add(p)
